@@ -1,12 +1,25 @@
 from vlib import H
 PROPERTY = 'C10'
 LEVEL = 'model_checking'
-CLAIM = ('Encoding part of signature checking only: the real IsValidSignatureEncoding / IsLowDERSignature / IsDefinedHashtypeSignature / CheckSignatureEncoding / '
+CLAIM = ('(1) Encoding part of signature checking: the real IsValidSignatureEncoding / IsLowDERSignature / IsDefinedHashtypeSignature / CheckSignatureEncoding / '
          'CheckPubKeyEncoding of script/interpreter.cpp agree with references written from BIP66, BIP62/BIP146 (LOW_S), STRICTENC and BIP143 (WITNESS_PUBKEYTYPE) for every byte '
          'string of the listed concrete lengths (all bytes symbolic) under every flag word (64 symbolic bits) and every SigVersion. '
-         'NOT claimed here: sighash message binding, CheckECDSASignature/CheckSchnorrSignature checker logic, and that CPubKey::Verify / VerifySchnorr accept exactly the '
+         '(2) Message binding (harness sighash): the real SignatureHash<CTransaction> (legacy serializer incl. OP_CODESEPARATOR removal; BIP143 branch, with and without PrecomputedTransactionData) feeds SHA256 exactly the '
+         'reference pre-image written from the protocol description / BIP143 (recording hash model with persistent midstates), for every enumerated shape (1-2 inputs, 0-2 outputs, input index, concrete 32-bit hash type values covering every base type / ANYONECANPAY / undefined-bit class, scriptCode kind) with '
+         'version, locktime, prevouts, sequences, amounts and output scripts symbolic; SIGHASH_SINGLE without output gives the constant 1 (legacy) / zero hashOutputs (BIP143). (3) the real GenericTransactionSignatureChecker::CheckECDSASignature '
+         'hands the verifier the signature minus its last byte, the key, and the sighash for that last byte as hash type - twice on one checker, so that the SigHashCache midstate (hit, miss on other scriptCode, shared slot of hash types 1 and 4) is covered. '
+         'NOT claimed here: BIP341 SignatureHashSchnorr/CheckSchnorrSignature (tagged-hash midstates are dynamically initialised globals), and that CPubKey::Verify / VerifySchnorr accept exactly the '
          'mathematically valid signatures (elliptic-curve multiplication is out of SAT reach); low-S normalisation and DER parsing of the real secp256k1 library are decided in C50.')
 LENS_Q = [0, 1, 8, 9, 10, 11, 12, 70, 71, 72, 73, 74]
+
+def sh(*a): return ('sh_' + '_'.join(str(x) for x in a), 'sh, ' + ', '.join(str(x) for x in a))
+def ck(*a): return ('ck_' + '_'.join(str(x) for x in a), 'ck, ' + ', '.join(str(x) for x in a))
+# sh: NIN, NOUT, IDX, HT, SIGV, SCK        ck: NIN, NOUT, IDX, HT1, SIGV, SCK, HT2, SCK2
+SH_Q = [sh(2, 2, 0, 0x01, 0, 1), sh(2, 2, 1, 0x43, 0, 2), sh(2, 1, 1, 0x03, 0, 4), sh(2, 2, 1, 0x82, 0, 3), sh(2, 2, 0, 0xffffff83, 0, 5), sh(1, 1, 0, 0x00, 0, 6), sh(2, 2, 1, 0x81, 0, 0), sh(2, 2, 0, 0x22, 0, 1), sh(2, 2, 0, 0x04, 0, 4),
+        sh(2, 2, 0, 0x01, 1, 7), sh(2, 2, 1, 0x43, 1, 7), sh(2, 1, 1, 0x03, 1, 7), sh(2, 2, 1, 0x02, 1, 7), sh(2, 2, 0, 0x12345681, 1, 7), sh(2, 2, 1, 0x83, 1, 0), sh(1, 1, 0, 0x00, 1, 7),
+        ck(2, 2, 0, 0x01, 0, 1, 0x01, 4), ck(2, 2, 1, 0x01, 0, 4, 0x41, 4), ck(2, 2, 0, 0x01, 0, 4, 0x04, 4), ck(2, 2, 1, 0x03, 1, 4, 0x83, 4), ck(2, 2, 0, 0x01, 1, 4, 0x21, 4), ck(2, 2, 1, 0x02, 1, 4, 0x01, 1)]
+SH_T = SH_Q + [sh(nin, nout, idx, ht, sv, sck) for nin in (1, 2) for nout in (0, 1, 2) for idx in range(nin) for ht in (0, 1, 2, 3, 0x1f, 0x80, 0x81, 0x82, 0x83, 0x9f, 0x61, 0xffffffff) for sv in (0, 1) for sck in ((1, 2, 3, 5, 6) if sv == 0 else (7,))
+               if ('sh_%d_%d_%d_%d_%d_%d' % (nin, nout, idx, ht, sv, sck)) not in {e[0] for e in SH_Q}]
 HARNESSES = [
     H('sigenc', 'sigenc.cpp', 'h_sigenc', variants=[{'LEN': l} for l in LENS_Q], tvariants=[{'LEN': l} for l in range(0, 76)], shadow=['nofmt'],
       unwind=80, memunwind=80, timeout=300, objbits=10, diff_runs=12,
@@ -16,4 +29,12 @@ HARNESSES = [
     H('pubkeyenc', 'sigenc.cpp', 'h_pubkeyenc', variants=[{'PLEN': l} for l in (0, 1, 32, 33, 34, 64, 65, 66)], shadow=['nofmt'], unwind=80, memunwind=80, timeout=300, objbits=10, diff_runs=12,
       functions=['CheckPubKeyEncoding', 'IsCompressedOrUncompressedPubKey', 'IsCompressedPubKey'], stubs=['assertion_fail -> CBMC assertion'],
       bounds='public key lengths 0,1,32,33,34,64,65,66, every byte symbolic; all 64 flag bits symbolic; SigVersion in {BASE, WITNESS_V0, TAPROOT, TAPSCRIPT}'),
+    H('sighash', 'sighash.cpp', 'h_sighash', link=['script/interpreter.cpp', 'script/script.cpp', 'primitives/transaction.cpp', 'uint256.cpp', 'hash.cpp'], entries=SH_Q, tentries=SH_T, shadow=['nofmt'],
+      unwind=270, memunwind=270, timeout=600, objbits=11, diff_runs=16,
+      functions=['SignatureHash<CTransaction>', 'CTransactionSignatureSerializer (Serialize/SerializeInput/SerializeOutput/SerializeScriptCode)', 'GetPrevoutsSHA256/GetSequencesSHA256/GetOutputsSHA256', 'SHA256Uint256', 'SigHashCache::CacheIndex/Load/Store',
+                 'PrecomputedTransactionData::Init (BIP143 part)', 'GenericTransactionSignatureChecker<CTransaction>::CheckECDSASignature (script/interpreter.cpp)', 'HashWriter (hash.h)', 'CScript::GetOp (script/script.cpp)', 'serialize.h formatters', 'CPubKey ctor/IsValid (pubkey.h)'],
+      stubs=['CSHA256 -> recording model with persistent state (state = node of a tree of Write events; Finalize logs the message and returns its label): collision-free hash abstraction', 'VerifyECDSASignature (virtual) -> recorder with symbolic verdict',
+             'CPubKey::Verify / XOnlyPubKey::VerifySchnorr etc. nondeterministic (unreached)', 'memory_cleanse -> no-op', 'tinyformat -> empty strings', 'assertion_fail -> CBMC assertion'],
+      assumptions=['legacy scriptCode bytes are concrete per kind (the script is parsed for OP_CODESEPARATOR removal); witness scriptCode: 3 symbolic bytes or concrete kinds', 'checker harness: amount >= 0 (negative amount = missing data path, not exercised)'],
+      bounds='quick: 16 SignatureHash shapes + 6 two-call checker shapes (see SH_Q); thorough: full cross product NIN 1-2 x NOUT 0-2 x input index x 12 hash-type values x {legacy, witness v0} x scriptCode kinds. scriptPubKeys 2 bytes, scriptCode <= 4 bytes; hash types are concrete values per shape (12 values in thorough), everything else symbolic'),
 ]
